@@ -757,6 +757,16 @@ class C14(PropBase):
         parts += ["%d %d" % m for m in mems]
         parts.append("LK %d" % len(lk))
         parts += ["%d %d" % p for p in lk]
+        # the Debug names, in the two large Windows tables (not translated into Coq), of the values the rendering of this reason consults
+        nm = []
+        if exc and os_class(platform) == OS_WIN:
+            en = load_enums()
+            for enid, table, v in ((2, "WinErrorWindows", e["code"]), (2, "WinErrorWindows", e["code"] & 0xffff), (3, "NtStatusWindows", e["code"]),
+                                   (3, "NtStatusWindows", e["i2"] & U32)):
+                if v in en[table] and (enid, v) not in [(a, b) for a, b, _ in nm]:
+                    nm.append((enid, v, en[table][v].encode().hex()))
+        parts.append("NM %d" % len(nm))
+        parts += ["%d %d %s" % x for x in nm]
         return " ".join(parts)
 
     def gen_case(self, rng, dist):
@@ -820,6 +830,7 @@ class C14(PropBase):
             return "P;;"
         if ans == "NONE":
             return ans
+        hexcase = case.startswith("H ")
         case = case_body(case)
         arch = int(case.split(" ", 1)[0]) & 0xffff
         c = parse_case(case)
@@ -832,17 +843,20 @@ class C14(PropBase):
             else:
                 reg = "?"
             th.append(":".join([tid, name, info, ip, sp, reg, canon_unl_impl(unl)]))
-        r = ("#" + d["reason"]) if self.reason_predicted(d["X"]) else ""
+        r = ("#" + d["reason"]) if self.reason_predicted(d["X"], hexcase) else ""
         return "T=%s;R=%s;X=%s;P=%s;C=%s;TM=%s;M=%s;U=%s%s" % (",".join(th), d["R"], d["X"], d["P"], d["C"], d["TM"], d["M"], d["U"], r)
 
-    # families whose Display the model predicts (all but WinError / WinErrorWithFacility / NtStatus / InPageError: the large name tables)
+    # families whose Display the model predicts: all 33 when the case line hands over the names the two large Windows tables give the
+    # values it consults (NM section); without them (H cases: the model reads nothing but the bytes) all but WinError /
+    # WinErrorWithFacility / NtStatus / InPageError
     @staticmethod
-    def reason_predicted(x):
-        return x != "-" and int(x.split(":")[1]) not in (25, 26, 27, 29)
+    def reason_predicted(x, without_names=False):
+        return x != "-" and not (without_names and int(x.split(":")[1]) in (25, 26, 27, 29))
 
     def canon_model(self, case, ans):
         if ans == "NONE":
             return ans
+        hexcase = case.startswith("H ")
         case = case_body(case)
         arch = int(case.split(" ", 1)[0]) & 0xffff
         wsize = 8 if arch in ARCH_WORD8 else 4
@@ -856,7 +870,7 @@ class C14(PropBase):
                 reg = "?"
             th.append(":".join([tid, name, info, ip, sp, reg, canon_unl_model(unl)]))
         u = ",".join("%s:%s:u%02d" % tuple(x.split(":")[:2] + [int(x.split(":")[2])]) for x in d["U"].split(",")) if d["U"] else ""
-        r = ("#" + d["reason"]) if self.reason_predicted(d["X"]) else ""
+        r = ("#" + d["reason"]) if self.reason_predicted(d["X"], hexcase) else ""
         return "T=%s;R=%s;X=%s;P=%s;C=%s;TM=%s;M=%s;U=%s%s" % (",".join(th), d["R"], d["X"], d["P"], d["C"], d["TM"], d["M"], u, r)
 
     # ------------------------------------------------------------------ oracle (independent of the model)
